@@ -206,6 +206,13 @@ class HSFZConnection:
                 raise RuntimeError(f"unexpected frame: {frame}")
 
     async def read_frame(self) -> HSFZDiagFrame | int:
+        # A reader must not take frames away from a writer which is waiting for its ACK:
+        # like DoIPConnection, readers and the writer (which holds the mutex while it
+        # waits, see write_diag_request_raw) are serialised.
+        async with self._mutex:
+            return await self.read_frame_unsafe()
+
+    async def read_frame_unsafe(self) -> HSFZDiagFrame | int:
         if self._closed:
             if sys.platform != "win32":
                 raise OSError(errno.EBADFD)
@@ -262,7 +269,8 @@ class HSFZConnection:
         self, prev_data: bytes, unexpected_packets: list[HSFZDiagFrame]
     ) -> None:
         while True:
-            hdr, req_hdr, data = await self._unpack_frame(await self.read_frame())
+            # The caller (write_diag_request_raw) holds the mutex.
+            hdr, req_hdr, data = await self._unpack_frame(await self.read_frame_unsafe())
             if hdr.CWord != HSFZStatus.Ack:
                 logger.warning(
                     f"expected HSFZ Ack for {prev_data.hex()}, instead got: {HSFZStatus(hdr.CWord).name} with payload {data.hex()}"
